@@ -19,3 +19,4 @@ def run(chk):
 
     settings_reach_every_node(chk, "C09")  # the same position mode nested and stand-alone: it has to reach every security, attached at once or lazily
     core_rules.refresh_before_trade(chk, "C09")  # inside a shadow copy only the parent pointer is reliable: trades there must refresh to the parent's date
+    core_rules.transact_rules(chk, "C09")  # a trade marks the tree stale through its PARENT (inside a shadow copy a security's own root pointer may be stale)
